@@ -410,16 +410,109 @@ def content_copy(s0, base):
         shutil.rmtree(tmp, ignore_errors=True)
 
 
+# A transaction that is larger than SQLite's page cache (pages are written to the database file before the commit) is open
+# when the process is killed, after a completed backup and a committed overwrite.  Kill points: after every 40th page of the
+# big write (harness granularity; the per-line flows above use small transactions).  The database file is created in the
+# three ways callers create it: a fresh path, a path at which an empty file exists already (tempfile), a Wtp() temporary
+# database reopened by its path.
+BIG_N, BIG_BODY = 320, "b" * 9000
+
+
+def big_child(path, how, kill_after):
+    """Runs in a forked child: returns never (os._exit)."""
+    from wikitextprocessor import Wtp
+    try:
+        if how == "preexisting-empty-file":
+            open(path, "wb").close()
+        if how == "default-temporary":
+            w = Wtp(quiet=True, quiet_output=True)
+            path2 = str(w.db_path)
+            with open(path + ".where", "w") as f:
+                f.write(path2)
+        else:
+            w = Wtp(db_path=Path(path), quiet=True, quiet_output=True)
+        for i in range(BIG_N):
+            w.add_page("P%d" % i, 0, "v1 %d " % i + BIG_BODY)
+        w.db_conn.commit()
+        w.backup_db()
+        for i in range(0, BIG_N, 7):
+            w.add_page("P%d" % i, 0, "v2 committed " + BIG_BODY)
+        w.db_conn.commit()
+        for i in range(BIG_N):
+            w.add_page("P%d" % i, 0, "v3 never committed " + BIG_BODY + BIG_BODY)
+            if i + 1 == kill_after:
+                os._exit(77)
+    except BaseException:   # noqa: BLE001
+        os._exit(78)
+    os._exit(79)
+
+
+def work_big(payload, skip, report):
+    acc = Acc(PROP)
+    _, how = payload
+    from wikitextprocessor import Wtp
+    for kill_after in (40, 120, 200, 320):
+        report(kill_after)
+        base = scratch_dir("c11big")
+        try:
+            path = os.path.join(base, DBNAME)
+            pid = os.fork()
+            if pid == 0:
+                big_child(path, how, kill_after)
+            _, st = os.waitpid(pid, 0)
+            code = os.waitstatus_to_exitcode(st)
+            case = {"flow": "big-uncommitted-transaction", "database_file": how, "killed_after_pages": kill_after}
+            acc.case()
+            acc.distinct("images", [how, kill_after])
+            if code != 77:
+                acc.violation("database_opens", case, "the writing process ended with status %d before the kill point" % code, "killed at the kill point")
+                continue
+            if how == "default-temporary":
+                path = open(path + ".where").read()
+            try:
+                w = Wtp(db_path=Path(path), quiet=True, quiet_output=True)
+                integ = [r[0] for r in w.db_conn.execute("PRAGMA integrity_check")]
+                pages = {p.title: (p.body or "")[:12] for p in w.get_all_pages()}
+                w.db_conn.close()
+                Wtp.get_page.cache_clear()
+            except Exception as e:
+                acc.violation("database_opens", case, type(e).__name__ + ": " + str(e)[:120], "opens")
+                continue
+            finally:
+                if how == "default-temporary":
+                    for f in (path, path + "-wal", path + "-shm", path + "-journal", path.replace("tempdb", "tempdb") + "_backup"):
+                        try:
+                            os.remove(f)
+                        except OSError:
+                            pass
+            if integ != ["ok"]:
+                acc.violation("integrity_check", case, integ[:3], ["ok"])
+            lost = [t for t in ("P%d" % i for i in range(BIG_N)) if t not in pages]
+            newer = sorted(t for t, b in pages.items() if t.startswith("P") and not b.startswith("v1 "))
+            if lost:
+                acc.violation("original_pages_survive", case, {"lost": len(lost), "e.g.": lost[:3]}, "all %d pages" % BIG_N)
+            if newer:
+                acc.violation("no_post_backup_version_survives", case, {"pages_with_a_later_version": len(newer), "e.g.": {t: pages[t] for t in newer[:2]}},
+                              "content at backup time")
+        finally:
+            shutil.rmtree(base, ignore_errors=True)
+    acc.sample({"flow": "big-uncommitted-transaction", "database_file": how})
+    return acc
+
+
 def main(run):
     thorough = run.tier == "thorough"
     chunks = [(f, thorough) for f in FLOWS]
     for cid, acc, hung in run_chunks(work, chunks, nproc=run.nproc, case_timeout=120):
         run.acc.merge(acc)
+    for cid, acc, hung in run_chunks(work_big, [("big", h) for h in ("fresh-path", "preexisting-empty-file", "default-temporary")],
+                                     nproc=run.nproc, case_timeout=120):
+        run.acc.merge(acc)
     c = run.acc.counters
     cov = {
         "distinct_nontrivial": len(run.acc.sets.get("images", ())),
         "kill_points_enumerated": c["line_events_phase1"] + c["line_events_phase2"] + c["line_events_double"],
-        "rule": "11 flows (3 flows without any backup where committed pages are followed by close_db_conn() with an unfinished get_all_pages() iteration or with a second context still open; 4 override flows + 2 flows with two backups taken by one context and small commits in between + 2 flows where the backup is taken while a second context on the same file is half-way through get_all_pages() and holds an older read snapshot; database clean / with committed content pending in the write-ahead log x override set with / without a "
+        "rule": "3 ways of creating the database file x 4 kill points inside a write transaction larger than SQLite's page cache (after a completed backup and a committed overwrite); 11 flows (3 flows without any backup where committed pages are followed by close_db_conn() with an unfinished get_all_pages() iteration or with a second context still open; 4 override flows + 2 flows with two backups taken by one context and small commits in between + 2 flows where the backup is taken while a second context on the same file is half-way through get_all_pages() and holds an older read snapshot; database clean / with committed content pending in the write-ahead log x override set with / without a "
                 "template, i.e. both branches of analyze_and_overwrite_pages); every executed source line of core.py and dumpparser.py "
                 "during open+backup+overwrite+commit+close and during the restoring re-open is a kill point; distinct on-disk states "
                 "(content hash of the directory) are the crash images, which is sound because recovery is a function of the files; for "
